@@ -103,7 +103,7 @@ func word(gen, idx, n int) string {
 	for i := range b {
 		b[i] = byte('a' + (gen*7+idx*3+i)%26)
 	}
-	if gen%2 == 1 {
+	if gen%2 == 1 && n > 0 {
 		b[0] = byte('A' + (gen+idx)%26)
 	}
 	return string(b)
@@ -341,6 +341,16 @@ func readPayloadF(via string, side ws.State, g, n int, chunks []int, frags int) 
 	return out, err
 }
 
+// readInto reads one single-frame message of n bytes with ReadMessage appending to ms.
+func readInto(ms []wsutil.Message, side ws.State, g, n int, chunks []int) ([]byte, []wsutil.Message, error) {
+	f := ref.Frame{H: ref.Header{Fin: true, Op: ref.OpBinary, Masked: side.ServerSide(), Mask: [4]byte{byte(g), 7, 3, 9}}, Payload: []byte(word(g, 52, n))}
+	out, err := wsutil.ReadMessage(tx.NewSrc(f.Encode(), chunks), side, ms)
+	if err != nil || len(out) != 1 || string(out[0].Payload) != word(g, 52, n) {
+		return nil, out, fmt.Errorf("harness: ReadMessage into a recycled slice: %v (%d messages)", err, len(out))
+	}
+	return out[0].Payload, out, nil
+}
+
 // poolChurn takes and returns a byte buffer of every pbytes size class through
 // library paths that use the pool (client-side writes copy the payload into a
 // pooled buffer), overwriting whatever was put back last in each class.
@@ -391,7 +401,7 @@ func clientWrite(g, n int) {
 
 var resultKinds = []string{
 	"Upgrader/Protocol+Extension", "Upgrader/Negotiate:wsflate", "HTTPUpgrader/Protocol+Extension", "HTTPUpgrader/Negotiate:wsflate",
-	"Dialer", "ClosedError", "ReadMessage", "ReadData", "ReadMessage/fragmented", "ReadData/fragmented", "ReadMessage+HandleControlMessage",
+	"Dialer", "ClosedError", "ReadMessage", "ReadData", "ReadMessage/fragmented", "ReadData/fragmented", "ReadMessage+HandleControlMessage", "ReadMessage/recycled-slice",
 }
 
 func TestResultsSurvivePoolReuse(t *testing.T) {
@@ -445,6 +455,22 @@ func TestResultsSurvivePoolReuse(t *testing.T) {
 			live = func() string { return string(p) }
 			if err == nil && string(p) != want {
 				t.Fatalf("the ping payload returned by ReadMessage was changed by HandleControlMessage answering it: %q, want %q (side %v)", p, want, side)
+			}
+		case "ReadMessage/recycled-slice":
+			// the msgs[:0] idiom: the caller passes the emptied slice of the previous call back in while it
+			// still holds the earlier payloads; a later, shorter or equal message must not be read into them
+			var p []byte
+			var ms []wsutil.Message
+			p, ms, err = readInto(nil, side, 0, size, chunks)
+			live = func() string { return string(p) }
+			for g, n := range []int{size, size - 1, size / 2, 1, size + 1} {
+				if err != nil || n < 1 {
+					break
+				}
+				_, ms, err = readInto(ms[:0], side, 20+g, n, chunks)
+				if now := live(); err == nil && now != word(0, 52, size) {
+					t.Fatalf("ReadMessage(src, state, msgs[:0]) read message %d (%d bytes) into the payload of an earlier message the caller still holds (%d bytes): %q…", g+2, n, size, head([]byte(now)))
+				}
 			}
 		case "ReadMessage/fragmented", "ReadData/fragmented":
 			var p []byte
@@ -702,6 +728,115 @@ func TestCallerBuffersUntouched(t *testing.T) {
 		poolChurn(caseNo)
 		if !bytes.Equal(p, orig) {
 			t.Fatalf("%s: the caller's slice (len %d cap %d) changed during later, unrelated client writes: the library kept or pooled it: %x… -> %x…", api, len(p), cap(p), head(orig), head(p))
+		}
+	})
+}
+
+// TestCallerSuppliedWriterBuffers: a buffer given to NewWriterBuffer /
+// NewControlWriterBuffer stays the caller's: whatever the writer did with it
+// (filled it, flushed it, outgrew it with flushing disabled, was reset), once
+// the caller takes it back later library traffic must not write into it.
+func TestCallerSuppliedWriterBuffers(t *testing.T) {
+	hx.Check(t, 4, func(t *rapid.T) {
+		housekeeping()
+		rand.Seed(rapid.Int64().Draw(t, "seed"))
+		capacity := rapid.SampledFrom([]int{16, 100, 128, 130, 256, 512, 1000, 1024, 4096, 8192, 65536}).Draw(t, "cap")
+		length := capacity
+		if rapid.Bool().Draw(t, "shorter") {
+			length = capacity - rapid.IntRange(0, 2).Draw(t, "slack")
+		}
+		buf := make([]byte, length, capacity)
+		client := rapid.Bool().Draw(t, "client")
+		state := ws.StateServerSide
+		if client {
+			state = ws.StateClientSide
+		}
+		rec := tx.NewRec()
+		var accepted []byte
+		kind := rapid.SampledFrom([]string{"Writer", "Writer", "Writer", "ControlWriter"}).Draw(t, "kind")
+		noFlush := false
+		var trace []string
+		if kind == "ControlWriter" {
+			if length < 14 {
+				return
+			}
+			cw := wsutil.NewControlWriterBuffer(rec, state, ws.OpPing, buf)
+			p := []byte(word(1, 60, rapid.IntRange(0, min(125, length-14)).Draw(t, "ctl")))
+			if _, err := cw.Write(p); err != nil {
+				t.Fatalf("harness: ControlWriter.Write: %v", err)
+			}
+			cw.Flush()
+			trace = append(trace, fmt.Sprintf("ctl %d", len(p)))
+		} else {
+			w := wsutil.NewWriterBuffer(rec, state, ws.OpBinary, buf)
+			if noFlush = rapid.Bool().Draw(t, "disableFlush"); noFlush {
+				w.DisableFlush()
+			}
+			for i, n := 0, rapid.IntRange(1, 5).Draw(t, "ops"); i < n; i++ {
+				switch op := rapid.SampledFrom([]string{"write", "write", "grow", "flush", "reset", "readfrom"}).Draw(t, "op"); op {
+				case "write", "readfrom":
+					k := rapid.SampledFrom([]int{1, capacity / 2, capacity - 14, capacity, capacity + 1, 2*capacity + 3}).Draw(t, "n")
+					if k < 1 {
+						k = 1
+					}
+					p := []byte(word(i, 61, k))
+					if op == "write" {
+						w.Write(p)
+					} else {
+						w.ReadFrom(bytes.NewReader(p))
+					}
+					accepted = append(accepted, p...)
+					trace = append(trace, fmt.Sprintf("%s %d", op, k))
+				case "grow":
+					k := rapid.SampledFrom([]int{1, capacity, 2 * capacity}).Draw(t, "grow")
+					w.Grow(k)
+					trace = append(trace, fmt.Sprintf("grow %d", k))
+				case "flush":
+					w.Flush()
+					trace = append(trace, "flush")
+				case "reset":
+					w.Flush()
+					w.Reset(rec, state, ws.OpBinary)
+					if noFlush {
+						w.DisableFlush()
+					}
+					trace = append(trace, "reset")
+				}
+			}
+			if err := w.Flush(); err != nil {
+				t.Fatalf("harness: Flush: %v", err)
+			}
+			fs, rest, err := ref.ParseFrames(rec.Bytes())
+			if err != nil || len(rest) != 0 {
+				t.Fatalf("destination bytes do not parse into frames: %v (%v)", err, trace)
+			}
+			var got []byte
+			for _, f := range fs {
+				got = append(got, f.Payload...)
+			}
+			if !bytes.Equal(got, accepted) {
+				t.Fatalf("harness: the writer over a caller-supplied buffer delivered %d bytes, %d were written (%v)", len(got), len(accepted), trace)
+			}
+		}
+		// the caller takes its buffer back
+		full := buf[:capacity]
+		for i := range full {
+			full[i] = byte(0xA0 + i%7)
+		}
+		want := append([]byte(nil), full...)
+		poolChurn(caseNo)
+		clientWrite(3, capacity-1)
+		ping(state, 4, 100)
+		hx.Eval()
+		hx.Class(fmt.Sprintf("%s/cap-is-pool-class=%v/noflush=%v", kind, capacity&(capacity-1) == 0 && capacity >= 128, noFlush))
+		if noFlush || kind == "ControlWriter" {
+			hx.NonTrivial(hx.Hash(kind, capacity, length, client, noFlush, fmt.Sprint(trace)), func() interface{} {
+				return map[string]interface{}{"kind": kind, "cap": capacity, "len": length, "client": client, "disable_flush": noFlush, "ops": trace}
+			})
+		}
+		if !bytes.Equal(full, want) {
+			t.Fatalf("%s over a caller-supplied buffer (len %d cap %d, client=%v, flush disabled=%v, ops %v): after the caller took the buffer back, later unrelated library writes changed it — the library kept or pooled the caller's buffer: %x… -> %x…",
+				kind, length, capacity, client, noFlush, trace, head(want), head(full))
 		}
 	})
 }
